@@ -362,6 +362,8 @@ fn display_agrees(fs: &Memfs, snap: &rivia::verif::VerifSnapshot) -> Result<(), 
 
 pub fn run_seq(pc: &PropCfg, knobs: &Knobs, env: &Env, mut src: Source, stats: &mut Stats, known: &dyn Fn(&Violation) -> bool) -> RunOut {
     set_env(env);
+    let _ = exec::ENTRY_MISMATCH.with(|m| m.borrow_mut().take());
+    let _ = exec::FOLLOW_TWICE.with(|m| m.borrow_mut().take());
     let hk = hooks::install_seq(knobs);
     let fs = Memfs::new();
     let wfs: Option<Vfs> = if pc.wrapper { Some(Vfs::memfs()) } else { None };
@@ -536,6 +538,16 @@ pub fn run_seq(pc: &PropCfg, knobs: &Knobs, env: &Env, mut src: Source, stats: &
                 oracle: "entry-accessors".into(),
                 step,
                 sig: format!("wrapper-entry|{}", op.label()),
+                detail: format!("{:?}: {}", op, d.chars().take(500).collect::<String>()),
+            });
+        }
+        // C10: follow(true) swaps path and alt exactly once, also on a copy of the entry
+        if let Some(d) = exec::FOLLOW_TWICE.with(|m| m.borrow_mut().take()) {
+            step_violations.push(Violation {
+                property: "C10".into(),
+                oracle: "follow-swaps-once".into(),
+                step,
+                sig: format!("follow-twice|{}", op.label()),
                 detail: format!("{:?}: {}", op, d.chars().take(500).collect::<String>()),
             });
         }
